@@ -304,16 +304,24 @@ func trimErrorCodePrefix(err error, httpStatus int, errorCode string) string {
 	buf := make([]byte, 0, 128)
 	if httpStatus != 0 {
 		buf = appendHTTPStatusPrefix(buf, httpStatus)
-		buf = append(buf, ": "...)
-		msg = strings.TrimPrefix(msg, string(buf))
+		msg = trimPrefixWithColon(msg, string(buf))
 	}
 	if errorCode != "" {
 		buf = buf[:0]
 		buf = appendErrorCodePrefix(buf, errorCode)
-		buf = append(buf, ": "...)
-		msg = strings.TrimPrefix(msg, string(buf))
+		msg = trimPrefixWithColon(msg, string(buf))
 	}
 	return msg
+}
+
+// trimPrefixWithColon removes prefix followed by ": " from
+// the start of msg. A message that consists of the prefix only
+// (which is how an error with an empty message prints) becomes empty.
+func trimPrefixWithColon(msg, prefix string) string {
+	if msg == prefix {
+		return ""
+	}
+	return strings.TrimPrefix(msg, prefix+": ")
 }
 
 // The following values represent the known error codes.
